@@ -84,9 +84,13 @@ theorem H0_new_src_eq_model (params : Params) (password salt key aad : Bytes) (t
   H0_new_src_eq params password salt key aad tag_length
 
 /-- the `while bytes > 64` loop of `hprime` (state components permuted), for every buffer and loop state -/
-theorem hprime_loop_src_eq_model (fuel : Nat) (output : Bytes) (bytes pos : Nat) (v : Bytes) :
-    (hprime_loop1_src fuel output bytes pos v).map (fun r => (r.1, r.2.2.2, r.2.1, r.2.2.1)) = hprime_loop fuel output v bytes pos :=
-  hprime_loop1_eq fuel output bytes pos v
+theorem hprime_loop_src_eq_model (fuel : Nat) (output : Bytes) (bytes pos : Nat) (v : Bytes) (hf : bytes ≤ fuel) :
+    (hprime_loop1_src (fuel + 1) output bytes pos v).map (fun r => (r.1, r.2.2.2, r.2.1, r.2.2.1)) = hprime_loop fuel output v bytes pos :=
+  hprime_loop1_eq fuel output bytes pos v hf
+
+/-- running out of fuel is a FAILURE of the generated loop (audit 3, F11), never a success value -/
+theorem hprime_loop_src_fuel_exhausted (output : Bytes) (bytes pos : Nat) (v : Bytes) :
+    hprime_loop1_src 0 output bytes pos v = none := rfl
 
 /-- `hprime` for EVERY output buffer (any length — incl. 0, ≤ 64, > 64 — and any previous contents) -/
 theorem hprime_src_eq_model (output input : Bytes) : hprime_src output input = hprime output.length input :=
